@@ -1,5 +1,5 @@
 // auto-generated: "lalrpop 0.23.1"
-// sha3: 2d93dddff03e21c86da15bbee95692961f8363890de08e2ce8484e4e84a52c0c
+// sha3: 312ad8ec31baa2171accb52edfb14e5cb773d908f7617dd46e16e2e3456fe4be
 use crate::rt::*;
 #[allow(unused_extern_crates)]
 extern crate lalrpop_util as __lalrpop_util;
@@ -10,7 +10,7 @@ extern crate alloc;
 
 #[rustfmt::skip]
 #[allow(explicit_outlives_requirements, non_snake_case, non_camel_case_types, unused_mut, unused_variables, unused_imports, unused_parens, clippy::needless_lifetimes, clippy::type_complexity, clippy::needless_return, clippy::too_many_arguments, clippy::match_single_binding, clippy::clone_on_copy, clippy::unit_arg)]
-mod __parse__S {
+mod __parse__P {
 
     use crate::rt::*;
     #[allow(unused_extern_crates)]
@@ -20,14 +20,14 @@ mod __parse__S {
     #[allow(unused_extern_crates)]
     extern crate alloc;
     use super::__ToTriple;
-    pub struct SParser {
+    pub struct PParser {
         _priv: (),
     }
 
-    impl Default for SParser { fn default() -> Self { Self::new() } }
-    impl SParser {
-        pub fn new() -> SParser {
-            SParser {
+    impl Default for PParser { fn default() -> Self { Self::new() } }
+    impl PParser {
+        pub fn new() -> PParser {
+            PParser {
                 _priv: (),
             }
         }
@@ -52,7 +52,7 @@ mod __parse__S {
                 (Some(__lookahead), _) => {
                     Err(__lalrpop_util::ParseError::ExtraToken { token: __lookahead })
                 }
-                (None, __Nonterminal::____S((_, __nt, _))) => {
+                (None, __Nonterminal::____P((_, __nt, _))) => {
                     Ok(__nt)
                 }
                 _ => unreachable!(),
@@ -65,9 +65,11 @@ mod __parse__S {
      {
         _40L((i64, i64, i64)),
         _40R((i64, i64, i64)),
-        L((i64, Tree, i64)),
-        S((i64, Tree, i64)),
-        ____S((i64, Tree, i64)),
+        Ex((i64, Tree, i64)),
+        P((i64, Tree, i64)),
+        Ss((i64, Tree, i64)),
+        St((i64, Tree, i64)),
+        ____P((i64, Tree, i64)),
     }
 
     fn __state0<
@@ -81,12 +83,13 @@ mod __parse__S {
         let mut __result: (Option<(i64, Tok, i64)>, __Nonterminal<>);
         match __lookahead {
             Some((_, Tok('a', _, _, _), _)) |
-            Some((_, Tok('b', _, _, _), _)) |
-            Some((_, Tok('c', _, _, _), _)) => {
+            Some((_, Tok('d', _, _, _), _)) |
+            Some((_, Tok('f', _, _, _), _)) |
+            None => {
                 let __start: i64 = __lookahead.as_ref().map(|o| o.0.clone()).unwrap_or_default();
                 let __end = __start.clone();
-                let __nt = super::__action11::<>(&__start, &__end);
-                let __nt = __Nonterminal::L((
+                let __nt = super::__action22::<>(&__start, &__end);
+                let __nt = __Nonterminal::Ss((
                     __start,
                     __nt,
                     __end,
@@ -96,9 +99,9 @@ mod __parse__S {
             _ => {
                 #[allow(clippy::needless_raw_string_hashes)]
                 let __expected = alloc::vec![
-                    r###""a""###.to_string(),
-                    r###"",""###.to_string(),
-                    r###"";""###.to_string(),
+                    r###""id""###.to_string(),
+                    r###""{""###.to_string(),
+                    r###""if""###.to_string(),
                 ];
                 return Err(
                     match __lookahead {
@@ -123,11 +126,11 @@ mod __parse__S {
         loop {
             let (__lookahead, __nt) = __result;
             match __nt {
-                __Nonterminal::L(__sym0) => {
-                    __result = __state1(__tokens, __lookahead, __sym0, core::marker::PhantomData::<()>)?;
+                __Nonterminal::P(__sym0) => {
+                    __result = __state9(__tokens, __lookahead, __sym0, core::marker::PhantomData::<()>)?;
                 }
-                __Nonterminal::S(__sym0) => {
-                    __result = __state2(__tokens, __lookahead, __sym0, core::marker::PhantomData::<()>)?;
+                __Nonterminal::Ss(__sym0) => {
+                    __result = __state1(__tokens, __lookahead, __sym0, core::marker::PhantomData::<()>)?;
                 }
                 _ => {
                     return Ok((__lookahead, __nt));
@@ -147,27 +150,36 @@ mod __parse__S {
     {
         let mut __result: (Option<(i64, Tok, i64)>, __Nonterminal<>);
         match __lookahead {
-            Some((__loc1, __tok @ Tok('b', _, _, _), __loc2)) => {
-                let __sym1 = (__loc1, (__tok), __loc2);
-                __result = __state3(__tokens, __sym0, __sym1, core::marker::PhantomData::<()>)?;
-                return Ok(__result);
-            }
-            Some((__loc1, __tok @ Tok('c', _, _, _), __loc2)) => {
-                let __sym1 = (__loc1, (__tok), __loc2);
-                __result = __state4(__tokens, __sym0, __sym1, core::marker::PhantomData::<()>)?;
-                return Ok(__result);
-            }
             Some((__loc1, __tok @ Tok('a', _, _, _), __loc2)) => {
                 let __sym1 = (__loc1, (__tok), __loc2);
-                __result = __state5(__tokens, __sym0, __sym1, core::marker::PhantomData::<()>)?;
+                __result = __state11(__tokens, __sym1, core::marker::PhantomData::<()>)?;
+            }
+            Some((__loc1, __tok @ Tok('f', _, _, _), __loc2)) => {
+                let __sym1 = (__loc1, (__tok), __loc2);
+                __result = __state12(__tokens, __sym1, core::marker::PhantomData::<()>)?;
+            }
+            Some((__loc1, __tok @ Tok('d', _, _, _), __loc2)) => {
+                let __sym1 = (__loc1, (__tok), __loc2);
+                __result = __state2(__tokens, __sym1, core::marker::PhantomData::<()>)?;
+            }
+            None => {
+                let __start = __sym0.0.clone();
+                let __end = __sym0.2.clone();
+                let __nt = super::__action21::<>(__sym0);
+                let __nt = __Nonterminal::P((
+                    __start,
+                    __nt,
+                    __end,
+                ));
+                __result = (__lookahead, __nt);
                 return Ok(__result);
             }
             _ => {
                 #[allow(clippy::needless_raw_string_hashes)]
                 let __expected = alloc::vec![
-                    r###""a""###.to_string(),
-                    r###"",""###.to_string(),
-                    r###"";""###.to_string(),
+                    r###""id""###.to_string(),
+                    r###""{""###.to_string(),
+                    r###""if""###.to_string(),
                 ];
                 return Err(
                     match __lookahead {
@@ -188,9 +200,507 @@ mod __parse__S {
                 )
             }
         }
+        #[allow(clippy::never_loop)]
+        loop {
+            let (__lookahead, __nt) = __result;
+            match __nt {
+                __Nonterminal::St(__sym1) => {
+                    __result = __state10(__tokens, __lookahead, __sym0, __sym1, core::marker::PhantomData::<()>)?;
+                    return Ok(__result);
+                }
+                _ => {
+                    return Ok((__lookahead, __nt));
+                }
+            }
+        }
     }
 
     fn __state2<
+        __TOKENS: Iterator<Item=Result<(i64, Tok, i64),__lalrpop_util::ParseError<i64, Tok, u64>>>,
+    >(
+        __tokens: &mut __TOKENS,
+        __sym0: (i64, Tok, i64),
+        _: core::marker::PhantomData<()>,
+    ) -> Result<(Option<(i64, Tok, i64)>, __Nonterminal<>), __lalrpop_util::ParseError<i64, Tok, u64>>
+    {
+        let mut __result: (Option<(i64, Tok, i64)>, __Nonterminal<>);
+        let __lookahead = match __tokens.next() {
+            Some(Ok(v)) => Some(v),
+            Some(Err(e)) => return Err(e),
+            None => None,
+        };
+        let __sym0 = &mut Some(__sym0);
+        match __lookahead {
+            Some((_, Tok('a', _, _, _), _)) |
+            Some((_, Tok('d', _, _, _), _)) |
+            Some((_, Tok('e', _, _, _), _)) |
+            Some((_, Tok('f', _, _, _), _)) => {
+                let __start = __lookahead.as_ref().map(|o| o.0.clone()).unwrap_or_else(|| __sym0.as_ref().unwrap().2.clone());
+                let __end = __start.clone();
+                let __nt = super::__action22::<>(&__start, &__end);
+                let __nt = __Nonterminal::Ss((
+                    __start,
+                    __nt,
+                    __end,
+                ));
+                __result = (__lookahead, __nt);
+            }
+            _ => {
+                #[allow(clippy::needless_raw_string_hashes)]
+                let __expected = alloc::vec![
+                    r###""id""###.to_string(),
+                    r###""{""###.to_string(),
+                    r###""}""###.to_string(),
+                    r###""if""###.to_string(),
+                ];
+                return Err(
+                    match __lookahead {
+                        Some(__token) => {
+                            __lalrpop_util::ParseError::UnrecognizedToken {
+                                token: __token,
+                                expected: __expected,
+                            }
+                        }
+                        None => {
+                            let __location = 
+                            __sym0.as_ref().map(|sym| sym.2.clone()).unwrap_or_else(|| {
+                                Default::default()
+                            })
+                            ;
+                            __lalrpop_util::ParseError::UnrecognizedEof {
+                                location: __location,
+                                expected: __expected,
+                            }
+                        }
+                    }
+                )
+            }
+        }
+        #[allow(clippy::never_loop)]
+        loop {
+            if __sym0.is_none() {
+                return Ok(__result);
+            }
+            let (__lookahead, __nt) = __result;
+            match __nt {
+                __Nonterminal::Ss(__sym1) => {
+                    __result = __state5(__tokens, __lookahead, __sym0, __sym1, core::marker::PhantomData::<()>)?;
+                }
+                _ => {
+                    return Ok((__lookahead, __nt));
+                }
+            }
+        }
+    }
+
+    fn __state3<
+        __TOKENS: Iterator<Item=Result<(i64, Tok, i64),__lalrpop_util::ParseError<i64, Tok, u64>>>,
+    >(
+        __tokens: &mut __TOKENS,
+        __sym0: (i64, Tok, i64),
+        __sym1: (i64, Tok, i64),
+        _: core::marker::PhantomData<()>,
+    ) -> Result<(Option<(i64, Tok, i64)>, __Nonterminal<>), __lalrpop_util::ParseError<i64, Tok, u64>>
+    {
+        let mut __result: (Option<(i64, Tok, i64)>, __Nonterminal<>);
+        let __lookahead = match __tokens.next() {
+            Some(Ok(v)) => Some(v),
+            Some(Err(e)) => return Err(e),
+            None => None,
+        };
+        match __lookahead {
+            Some((__loc1, __tok @ Tok('h', _, _, _), __loc2)) => {
+                let __sym2 = (__loc1, (__tok), __loc2);
+                __result = __state6(__tokens, __sym2, core::marker::PhantomData::<()>)?;
+            }
+            Some((__loc1, __tok @ Tok('a', _, _, _), __loc2)) => {
+                let __sym2 = (__loc1, (__tok), __loc2);
+                __result = __state14(__tokens, __sym2, core::marker::PhantomData::<()>)?;
+            }
+            _ => {
+                #[allow(clippy::needless_raw_string_hashes)]
+                let __expected = alloc::vec![
+                    r###""id""###.to_string(),
+                    r###""(""###.to_string(),
+                ];
+                return Err(
+                    match __lookahead {
+                        Some(__token) => {
+                            __lalrpop_util::ParseError::UnrecognizedToken {
+                                token: __token,
+                                expected: __expected,
+                            }
+                        }
+                        None => {
+                            let __location = __sym1.2.clone();
+                            __lalrpop_util::ParseError::UnrecognizedEof {
+                                location: __location,
+                                expected: __expected,
+                            }
+                        }
+                    }
+                )
+            }
+        }
+        #[allow(clippy::never_loop)]
+        loop {
+            let (__lookahead, __nt) = __result;
+            match __nt {
+                __Nonterminal::Ex(__sym2) => {
+                    __result = __state13(__tokens, __lookahead, __sym0, __sym1, __sym2, core::marker::PhantomData::<()>)?;
+                    return Ok(__result);
+                }
+                _ => {
+                    return Ok((__lookahead, __nt));
+                }
+            }
+        }
+    }
+
+    fn __state4<
+        __TOKENS: Iterator<Item=Result<(i64, Tok, i64),__lalrpop_util::ParseError<i64, Tok, u64>>>,
+    >(
+        __tokens: &mut __TOKENS,
+        __sym0: (i64, Tok, i64),
+        __sym1: (i64, Tok, i64),
+        _: core::marker::PhantomData<()>,
+    ) -> Result<(Option<(i64, Tok, i64)>, __Nonterminal<>), __lalrpop_util::ParseError<i64, Tok, u64>>
+    {
+        let mut __result: (Option<(i64, Tok, i64)>, __Nonterminal<>);
+        let __lookahead = match __tokens.next() {
+            Some(Ok(v)) => Some(v),
+            Some(Err(e)) => return Err(e),
+            None => None,
+        };
+        match __lookahead {
+            Some((__loc1, __tok @ Tok('h', _, _, _), __loc2)) => {
+                let __sym2 = (__loc1, (__tok), __loc2);
+                __result = __state6(__tokens, __sym2, core::marker::PhantomData::<()>)?;
+            }
+            Some((__loc1, __tok @ Tok('a', _, _, _), __loc2)) => {
+                let __sym2 = (__loc1, (__tok), __loc2);
+                __result = __state14(__tokens, __sym2, core::marker::PhantomData::<()>)?;
+            }
+            _ => {
+                #[allow(clippy::needless_raw_string_hashes)]
+                let __expected = alloc::vec![
+                    r###""id""###.to_string(),
+                    r###""(""###.to_string(),
+                ];
+                return Err(
+                    match __lookahead {
+                        Some(__token) => {
+                            __lalrpop_util::ParseError::UnrecognizedToken {
+                                token: __token,
+                                expected: __expected,
+                            }
+                        }
+                        None => {
+                            let __location = __sym1.2.clone();
+                            __lalrpop_util::ParseError::UnrecognizedEof {
+                                location: __location,
+                                expected: __expected,
+                            }
+                        }
+                    }
+                )
+            }
+        }
+        #[allow(clippy::never_loop)]
+        loop {
+            let (__lookahead, __nt) = __result;
+            match __nt {
+                __Nonterminal::Ex(__sym2) => {
+                    __result = __state15(__tokens, __lookahead, __sym0, __sym1, __sym2, core::marker::PhantomData::<()>)?;
+                    return Ok(__result);
+                }
+                _ => {
+                    return Ok((__lookahead, __nt));
+                }
+            }
+        }
+    }
+
+    fn __state5<
+        __TOKENS: Iterator<Item=Result<(i64, Tok, i64),__lalrpop_util::ParseError<i64, Tok, u64>>>,
+    >(
+        __tokens: &mut __TOKENS,
+        __lookahead: Option<(i64, Tok, i64)>,
+        __sym0: &mut Option<(i64, Tok, i64)>,
+        __sym1: (i64, Tree, i64),
+        _: core::marker::PhantomData<()>,
+    ) -> Result<(Option<(i64, Tok, i64)>, __Nonterminal<>), __lalrpop_util::ParseError<i64, Tok, u64>>
+    {
+        let mut __result: (Option<(i64, Tok, i64)>, __Nonterminal<>);
+        match __lookahead {
+            Some((__loc1, __tok @ Tok('a', _, _, _), __loc2)) => {
+                let __sym2 = (__loc1, (__tok), __loc2);
+                __result = __state11(__tokens, __sym2, core::marker::PhantomData::<()>)?;
+            }
+            Some((__loc1, __tok @ Tok('f', _, _, _), __loc2)) => {
+                let __sym2 = (__loc1, (__tok), __loc2);
+                __result = __state12(__tokens, __sym2, core::marker::PhantomData::<()>)?;
+            }
+            Some((__loc1, __tok @ Tok('d', _, _, _), __loc2)) => {
+                let __sym2 = (__loc1, (__tok), __loc2);
+                __result = __state2(__tokens, __sym2, core::marker::PhantomData::<()>)?;
+            }
+            Some((__loc1, __tok @ Tok('e', _, _, _), __loc2)) => {
+                let __sym2 = (__loc1, (__tok), __loc2);
+                let __sym0 = __sym0.take().unwrap();
+                __result = __state16(__tokens, __sym0, __sym1, __sym2, core::marker::PhantomData::<()>)?;
+                return Ok(__result);
+            }
+            _ => {
+                #[allow(clippy::needless_raw_string_hashes)]
+                let __expected = alloc::vec![
+                    r###""id""###.to_string(),
+                    r###""{""###.to_string(),
+                    r###""}""###.to_string(),
+                    r###""if""###.to_string(),
+                ];
+                return Err(
+                    match __lookahead {
+                        Some(__token) => {
+                            __lalrpop_util::ParseError::UnrecognizedToken {
+                                token: __token,
+                                expected: __expected,
+                            }
+                        }
+                        None => {
+                            let __location = __sym1.2.clone();
+                            __lalrpop_util::ParseError::UnrecognizedEof {
+                                location: __location,
+                                expected: __expected,
+                            }
+                        }
+                    }
+                )
+            }
+        }
+        #[allow(clippy::never_loop)]
+        loop {
+            let (__lookahead, __nt) = __result;
+            match __nt {
+                __Nonterminal::St(__sym2) => {
+                    __result = __state10(__tokens, __lookahead, __sym1, __sym2, core::marker::PhantomData::<()>)?;
+                    return Ok(__result);
+                }
+                _ => {
+                    return Ok((__lookahead, __nt));
+                }
+            }
+        }
+    }
+
+    fn __state6<
+        __TOKENS: Iterator<Item=Result<(i64, Tok, i64),__lalrpop_util::ParseError<i64, Tok, u64>>>,
+    >(
+        __tokens: &mut __TOKENS,
+        __sym0: (i64, Tok, i64),
+        _: core::marker::PhantomData<()>,
+    ) -> Result<(Option<(i64, Tok, i64)>, __Nonterminal<>), __lalrpop_util::ParseError<i64, Tok, u64>>
+    {
+        let mut __result: (Option<(i64, Tok, i64)>, __Nonterminal<>);
+        let __lookahead = match __tokens.next() {
+            Some(Ok(v)) => Some(v),
+            Some(Err(e)) => return Err(e),
+            None => None,
+        };
+        match __lookahead {
+            Some((__loc1, __tok @ Tok('h', _, _, _), __loc2)) => {
+                let __sym1 = (__loc1, (__tok), __loc2);
+                __result = __state6(__tokens, __sym1, core::marker::PhantomData::<()>)?;
+            }
+            Some((__loc1, __tok @ Tok('a', _, _, _), __loc2)) => {
+                let __sym1 = (__loc1, (__tok), __loc2);
+                __result = __state14(__tokens, __sym1, core::marker::PhantomData::<()>)?;
+            }
+            _ => {
+                #[allow(clippy::needless_raw_string_hashes)]
+                let __expected = alloc::vec![
+                    r###""id""###.to_string(),
+                    r###""(""###.to_string(),
+                ];
+                return Err(
+                    match __lookahead {
+                        Some(__token) => {
+                            __lalrpop_util::ParseError::UnrecognizedToken {
+                                token: __token,
+                                expected: __expected,
+                            }
+                        }
+                        None => {
+                            let __location = __sym0.2.clone();
+                            __lalrpop_util::ParseError::UnrecognizedEof {
+                                location: __location,
+                                expected: __expected,
+                            }
+                        }
+                    }
+                )
+            }
+        }
+        #[allow(clippy::never_loop)]
+        loop {
+            let (__lookahead, __nt) = __result;
+            match __nt {
+                __Nonterminal::Ex(__sym1) => {
+                    __result = __state18(__tokens, __lookahead, __sym0, __sym1, core::marker::PhantomData::<()>)?;
+                    return Ok(__result);
+                }
+                _ => {
+                    return Ok((__lookahead, __nt));
+                }
+            }
+        }
+    }
+
+    fn __state7<
+        __TOKENS: Iterator<Item=Result<(i64, Tok, i64),__lalrpop_util::ParseError<i64, Tok, u64>>>,
+    >(
+        __tokens: &mut __TOKENS,
+        __sym0: (i64, Tok, i64),
+        __sym1: (i64, Tok, i64),
+        __sym2: (i64, Tree, i64),
+        __sym3: (i64, Tok, i64),
+        _: core::marker::PhantomData<()>,
+    ) -> Result<(Option<(i64, Tok, i64)>, __Nonterminal<>), __lalrpop_util::ParseError<i64, Tok, u64>>
+    {
+        let mut __result: (Option<(i64, Tok, i64)>, __Nonterminal<>);
+        let __lookahead = match __tokens.next() {
+            Some(Ok(v)) => Some(v),
+            Some(Err(e)) => return Err(e),
+            None => None,
+        };
+        match __lookahead {
+            Some((__loc1, __tok @ Tok('a', _, _, _), __loc2)) => {
+                let __sym4 = (__loc1, (__tok), __loc2);
+                __result = __state11(__tokens, __sym4, core::marker::PhantomData::<()>)?;
+            }
+            Some((__loc1, __tok @ Tok('f', _, _, _), __loc2)) => {
+                let __sym4 = (__loc1, (__tok), __loc2);
+                __result = __state12(__tokens, __sym4, core::marker::PhantomData::<()>)?;
+            }
+            Some((__loc1, __tok @ Tok('d', _, _, _), __loc2)) => {
+                let __sym4 = (__loc1, (__tok), __loc2);
+                __result = __state2(__tokens, __sym4, core::marker::PhantomData::<()>)?;
+            }
+            _ => {
+                #[allow(clippy::needless_raw_string_hashes)]
+                let __expected = alloc::vec![
+                    r###""id""###.to_string(),
+                    r###""{""###.to_string(),
+                    r###""if""###.to_string(),
+                ];
+                return Err(
+                    match __lookahead {
+                        Some(__token) => {
+                            __lalrpop_util::ParseError::UnrecognizedToken {
+                                token: __token,
+                                expected: __expected,
+                            }
+                        }
+                        None => {
+                            let __location = __sym3.2.clone();
+                            __lalrpop_util::ParseError::UnrecognizedEof {
+                                location: __location,
+                                expected: __expected,
+                            }
+                        }
+                    }
+                )
+            }
+        }
+        #[allow(clippy::never_loop)]
+        loop {
+            let (__lookahead, __nt) = __result;
+            match __nt {
+                __Nonterminal::St(__sym4) => {
+                    __result = __state20(__tokens, __lookahead, __sym0, __sym1, __sym2, __sym3, __sym4, core::marker::PhantomData::<()>)?;
+                    return Ok(__result);
+                }
+                _ => {
+                    return Ok((__lookahead, __nt));
+                }
+            }
+        }
+    }
+
+    fn __state8<
+        __TOKENS: Iterator<Item=Result<(i64, Tok, i64),__lalrpop_util::ParseError<i64, Tok, u64>>>,
+    >(
+        __tokens: &mut __TOKENS,
+        __sym0: (i64, Tok, i64),
+        __sym1: (i64, Tok, i64),
+        __sym2: (i64, Tree, i64),
+        __sym3: (i64, Tok, i64),
+        __sym4: (i64, Tree, i64),
+        __sym5: (i64, Tok, i64),
+        _: core::marker::PhantomData<()>,
+    ) -> Result<(Option<(i64, Tok, i64)>, __Nonterminal<>), __lalrpop_util::ParseError<i64, Tok, u64>>
+    {
+        let mut __result: (Option<(i64, Tok, i64)>, __Nonterminal<>);
+        let __lookahead = match __tokens.next() {
+            Some(Ok(v)) => Some(v),
+            Some(Err(e)) => return Err(e),
+            None => None,
+        };
+        match __lookahead {
+            Some((__loc1, __tok @ Tok('a', _, _, _), __loc2)) => {
+                let __sym6 = (__loc1, (__tok), __loc2);
+                __result = __state11(__tokens, __sym6, core::marker::PhantomData::<()>)?;
+            }
+            Some((__loc1, __tok @ Tok('f', _, _, _), __loc2)) => {
+                let __sym6 = (__loc1, (__tok), __loc2);
+                __result = __state12(__tokens, __sym6, core::marker::PhantomData::<()>)?;
+            }
+            Some((__loc1, __tok @ Tok('d', _, _, _), __loc2)) => {
+                let __sym6 = (__loc1, (__tok), __loc2);
+                __result = __state2(__tokens, __sym6, core::marker::PhantomData::<()>)?;
+            }
+            _ => {
+                #[allow(clippy::needless_raw_string_hashes)]
+                let __expected = alloc::vec![
+                    r###""id""###.to_string(),
+                    r###""{""###.to_string(),
+                    r###""if""###.to_string(),
+                ];
+                return Err(
+                    match __lookahead {
+                        Some(__token) => {
+                            __lalrpop_util::ParseError::UnrecognizedToken {
+                                token: __token,
+                                expected: __expected,
+                            }
+                        }
+                        None => {
+                            let __location = __sym5.2.clone();
+                            __lalrpop_util::ParseError::UnrecognizedEof {
+                                location: __location,
+                                expected: __expected,
+                            }
+                        }
+                    }
+                )
+            }
+        }
+        #[allow(clippy::never_loop)]
+        loop {
+            let (__lookahead, __nt) = __result;
+            match __nt {
+                __Nonterminal::St(__sym6) => {
+                    __result = __state21(__tokens, __lookahead, __sym0, __sym1, __sym2, __sym3, __sym4, __sym5, __sym6, core::marker::PhantomData::<()>)?;
+                    return Ok(__result);
+                }
+                _ => {
+                    return Ok((__lookahead, __nt));
+                }
+            }
+        }
+    }
+
+    fn __state9<
         __TOKENS: Iterator<Item=Result<(i64, Tok, i64),__lalrpop_util::ParseError<i64, Tok, u64>>>,
     >(
         __tokens: &mut __TOKENS,
@@ -205,7 +715,7 @@ mod __parse__S {
                 let __start = __sym0.0.clone();
                 let __end = __sym0.2.clone();
                 let __nt = super::__action0::<>(__sym0);
-                let __nt = __Nonterminal::____S((
+                let __nt = __Nonterminal::____P((
                     __start,
                     __nt,
                     __end,
@@ -238,85 +748,27 @@ mod __parse__S {
         }
     }
 
-    fn __state3<
+    fn __state10<
         __TOKENS: Iterator<Item=Result<(i64, Tok, i64),__lalrpop_util::ParseError<i64, Tok, u64>>>,
     >(
         __tokens: &mut __TOKENS,
+        __lookahead: Option<(i64, Tok, i64)>,
         __sym0: (i64, Tree, i64),
-        __sym1: (i64, Tok, i64),
+        __sym1: (i64, Tree, i64),
         _: core::marker::PhantomData<()>,
     ) -> Result<(Option<(i64, Tok, i64)>, __Nonterminal<>), __lalrpop_util::ParseError<i64, Tok, u64>>
     {
         let mut __result: (Option<(i64, Tok, i64)>, __Nonterminal<>);
-        let __lookahead = match __tokens.next() {
-            Some(Ok(v)) => Some(v),
-            Some(Err(e)) => return Err(e),
-            None => None,
-        };
         match __lookahead {
             Some((_, Tok('a', _, _, _), _)) |
-            Some((_, Tok('b', _, _, _), _)) |
-            Some((_, Tok('c', _, _, _), _)) => {
-                let __start = __sym0.0.clone();
-                let __end = __sym1.2.clone();
-                let __nt = super::__action13::<>(__sym0, __sym1);
-                let __nt = __Nonterminal::L((
-                    __start,
-                    __nt,
-                    __end,
-                ));
-                __result = (__lookahead, __nt);
-                return Ok(__result);
-            }
-            _ => {
-                #[allow(clippy::needless_raw_string_hashes)]
-                let __expected = alloc::vec![
-                    r###""a""###.to_string(),
-                    r###"",""###.to_string(),
-                    r###"";""###.to_string(),
-                ];
-                return Err(
-                    match __lookahead {
-                        Some(__token) => {
-                            __lalrpop_util::ParseError::UnrecognizedToken {
-                                token: __token,
-                                expected: __expected,
-                            }
-                        }
-                        None => {
-                            let __location = __sym1.2.clone();
-                            __lalrpop_util::ParseError::UnrecognizedEof {
-                                location: __location,
-                                expected: __expected,
-                            }
-                        }
-                    }
-                )
-            }
-        }
-    }
-
-    fn __state4<
-        __TOKENS: Iterator<Item=Result<(i64, Tok, i64),__lalrpop_util::ParseError<i64, Tok, u64>>>,
-    >(
-        __tokens: &mut __TOKENS,
-        __sym0: (i64, Tree, i64),
-        __sym1: (i64, Tok, i64),
-        _: core::marker::PhantomData<()>,
-    ) -> Result<(Option<(i64, Tok, i64)>, __Nonterminal<>), __lalrpop_util::ParseError<i64, Tok, u64>>
-    {
-        let mut __result: (Option<(i64, Tok, i64)>, __Nonterminal<>);
-        let __lookahead = match __tokens.next() {
-            Some(Ok(v)) => Some(v),
-            Some(Err(e)) => return Err(e),
-            None => None,
-        };
-        match __lookahead {
+            Some((_, Tok('d', _, _, _), _)) |
+            Some((_, Tok('e', _, _, _), _)) |
+            Some((_, Tok('f', _, _, _), _)) |
             None => {
                 let __start = __sym0.0.clone();
                 let __end = __sym1.2.clone();
-                let __nt = super::__action14::<>(__sym0, __sym1);
-                let __nt = __Nonterminal::S((
+                let __nt = super::__action23::<>(__sym0, __sym1);
+                let __nt = __Nonterminal::Ss((
                     __start,
                     __nt,
                     __end,
@@ -327,6 +779,10 @@ mod __parse__S {
             _ => {
                 #[allow(clippy::needless_raw_string_hashes)]
                 let __expected = alloc::vec![
+                    r###""id""###.to_string(),
+                    r###""{""###.to_string(),
+                    r###""}""###.to_string(),
+                    r###""if""###.to_string(),
                 ];
                 return Err(
                     match __lookahead {
@@ -349,12 +805,11 @@ mod __parse__S {
         }
     }
 
-    fn __state5<
+    fn __state11<
         __TOKENS: Iterator<Item=Result<(i64, Tok, i64),__lalrpop_util::ParseError<i64, Tok, u64>>>,
     >(
         __tokens: &mut __TOKENS,
-        __sym0: (i64, Tree, i64),
-        __sym1: (i64, Tok, i64),
+        __sym0: (i64, Tok, i64),
         _: core::marker::PhantomData<()>,
     ) -> Result<(Option<(i64, Tok, i64)>, __Nonterminal<>), __lalrpop_util::ParseError<i64, Tok, u64>>
     {
@@ -365,25 +820,104 @@ mod __parse__S {
             None => None,
         };
         match __lookahead {
-            Some((_, Tok('a', _, _, _), _)) |
-            Some((_, Tok('b', _, _, _), _)) |
-            Some((_, Tok('c', _, _, _), _)) => {
-                let __start = __sym0.0.clone();
-                let __end = __sym1.2.clone();
-                let __nt = super::__action12::<>(__sym0, __sym1);
-                let __nt = __Nonterminal::L((
-                    __start,
-                    __nt,
-                    __end,
-                ));
-                __result = (__lookahead, __nt);
+            Some((__loc1, __tok @ Tok('b', _, _, _), __loc2)) => {
+                let __sym1 = (__loc1, (__tok), __loc2);
+                __result = __state3(__tokens, __sym0, __sym1, core::marker::PhantomData::<()>)?;
                 return Ok(__result);
             }
             _ => {
                 #[allow(clippy::needless_raw_string_hashes)]
                 let __expected = alloc::vec![
-                    r###""a""###.to_string(),
-                    r###"",""###.to_string(),
+                    r###""=""###.to_string(),
+                ];
+                return Err(
+                    match __lookahead {
+                        Some(__token) => {
+                            __lalrpop_util::ParseError::UnrecognizedToken {
+                                token: __token,
+                                expected: __expected,
+                            }
+                        }
+                        None => {
+                            let __location = __sym0.2.clone();
+                            __lalrpop_util::ParseError::UnrecognizedEof {
+                                location: __location,
+                                expected: __expected,
+                            }
+                        }
+                    }
+                )
+            }
+        }
+    }
+
+    fn __state12<
+        __TOKENS: Iterator<Item=Result<(i64, Tok, i64),__lalrpop_util::ParseError<i64, Tok, u64>>>,
+    >(
+        __tokens: &mut __TOKENS,
+        __sym0: (i64, Tok, i64),
+        _: core::marker::PhantomData<()>,
+    ) -> Result<(Option<(i64, Tok, i64)>, __Nonterminal<>), __lalrpop_util::ParseError<i64, Tok, u64>>
+    {
+        let mut __result: (Option<(i64, Tok, i64)>, __Nonterminal<>);
+        let __lookahead = match __tokens.next() {
+            Some(Ok(v)) => Some(v),
+            Some(Err(e)) => return Err(e),
+            None => None,
+        };
+        match __lookahead {
+            Some((__loc1, __tok @ Tok('h', _, _, _), __loc2)) => {
+                let __sym1 = (__loc1, (__tok), __loc2);
+                __result = __state4(__tokens, __sym0, __sym1, core::marker::PhantomData::<()>)?;
+                return Ok(__result);
+            }
+            _ => {
+                #[allow(clippy::needless_raw_string_hashes)]
+                let __expected = alloc::vec![
+                    r###""(""###.to_string(),
+                ];
+                return Err(
+                    match __lookahead {
+                        Some(__token) => {
+                            __lalrpop_util::ParseError::UnrecognizedToken {
+                                token: __token,
+                                expected: __expected,
+                            }
+                        }
+                        None => {
+                            let __location = __sym0.2.clone();
+                            __lalrpop_util::ParseError::UnrecognizedEof {
+                                location: __location,
+                                expected: __expected,
+                            }
+                        }
+                    }
+                )
+            }
+        }
+    }
+
+    fn __state13<
+        __TOKENS: Iterator<Item=Result<(i64, Tok, i64),__lalrpop_util::ParseError<i64, Tok, u64>>>,
+    >(
+        __tokens: &mut __TOKENS,
+        __lookahead: Option<(i64, Tok, i64)>,
+        __sym0: (i64, Tok, i64),
+        __sym1: (i64, Tok, i64),
+        __sym2: (i64, Tree, i64),
+        _: core::marker::PhantomData<()>,
+    ) -> Result<(Option<(i64, Tok, i64)>, __Nonterminal<>), __lalrpop_util::ParseError<i64, Tok, u64>>
+    {
+        let mut __result: (Option<(i64, Tok, i64)>, __Nonterminal<>);
+        match __lookahead {
+            Some((__loc1, __tok @ Tok('c', _, _, _), __loc2)) => {
+                let __sym3 = (__loc1, (__tok), __loc2);
+                __result = __state17(__tokens, __sym0, __sym1, __sym2, __sym3, core::marker::PhantomData::<()>)?;
+                return Ok(__result);
+            }
+            _ => {
+                #[allow(clippy::needless_raw_string_hashes)]
+                let __expected = alloc::vec![
                     r###"";""###.to_string(),
                 ];
                 return Err(
@@ -395,7 +929,445 @@ mod __parse__S {
                             }
                         }
                         None => {
+                            let __location = __sym2.2.clone();
+                            __lalrpop_util::ParseError::UnrecognizedEof {
+                                location: __location,
+                                expected: __expected,
+                            }
+                        }
+                    }
+                )
+            }
+        }
+    }
+
+    fn __state14<
+        __TOKENS: Iterator<Item=Result<(i64, Tok, i64),__lalrpop_util::ParseError<i64, Tok, u64>>>,
+    >(
+        __tokens: &mut __TOKENS,
+        __sym0: (i64, Tok, i64),
+        _: core::marker::PhantomData<()>,
+    ) -> Result<(Option<(i64, Tok, i64)>, __Nonterminal<>), __lalrpop_util::ParseError<i64, Tok, u64>>
+    {
+        let mut __result: (Option<(i64, Tok, i64)>, __Nonterminal<>);
+        let __lookahead = match __tokens.next() {
+            Some(Ok(v)) => Some(v),
+            Some(Err(e)) => return Err(e),
+            None => None,
+        };
+        match __lookahead {
+            Some((_, Tok('c', _, _, _), _)) |
+            Some((_, Tok('i', _, _, _), _)) => {
+                let __start = __sym0.0.clone();
+                let __end = __sym0.2.clone();
+                let __nt = super::__action19::<>(__sym0);
+                let __nt = __Nonterminal::Ex((
+                    __start,
+                    __nt,
+                    __end,
+                ));
+                __result = (__lookahead, __nt);
+                return Ok(__result);
+            }
+            _ => {
+                #[allow(clippy::needless_raw_string_hashes)]
+                let __expected = alloc::vec![
+                    r###"";""###.to_string(),
+                    r###"")""###.to_string(),
+                ];
+                return Err(
+                    match __lookahead {
+                        Some(__token) => {
+                            __lalrpop_util::ParseError::UnrecognizedToken {
+                                token: __token,
+                                expected: __expected,
+                            }
+                        }
+                        None => {
+                            let __location = __sym0.2.clone();
+                            __lalrpop_util::ParseError::UnrecognizedEof {
+                                location: __location,
+                                expected: __expected,
+                            }
+                        }
+                    }
+                )
+            }
+        }
+    }
+
+    fn __state15<
+        __TOKENS: Iterator<Item=Result<(i64, Tok, i64),__lalrpop_util::ParseError<i64, Tok, u64>>>,
+    >(
+        __tokens: &mut __TOKENS,
+        __lookahead: Option<(i64, Tok, i64)>,
+        __sym0: (i64, Tok, i64),
+        __sym1: (i64, Tok, i64),
+        __sym2: (i64, Tree, i64),
+        _: core::marker::PhantomData<()>,
+    ) -> Result<(Option<(i64, Tok, i64)>, __Nonterminal<>), __lalrpop_util::ParseError<i64, Tok, u64>>
+    {
+        let mut __result: (Option<(i64, Tok, i64)>, __Nonterminal<>);
+        match __lookahead {
+            Some((__loc1, __tok @ Tok('i', _, _, _), __loc2)) => {
+                let __sym3 = (__loc1, (__tok), __loc2);
+                __result = __state7(__tokens, __sym0, __sym1, __sym2, __sym3, core::marker::PhantomData::<()>)?;
+                return Ok(__result);
+            }
+            _ => {
+                #[allow(clippy::needless_raw_string_hashes)]
+                let __expected = alloc::vec![
+                    r###"")""###.to_string(),
+                ];
+                return Err(
+                    match __lookahead {
+                        Some(__token) => {
+                            __lalrpop_util::ParseError::UnrecognizedToken {
+                                token: __token,
+                                expected: __expected,
+                            }
+                        }
+                        None => {
+                            let __location = __sym2.2.clone();
+                            __lalrpop_util::ParseError::UnrecognizedEof {
+                                location: __location,
+                                expected: __expected,
+                            }
+                        }
+                    }
+                )
+            }
+        }
+    }
+
+    fn __state16<
+        __TOKENS: Iterator<Item=Result<(i64, Tok, i64),__lalrpop_util::ParseError<i64, Tok, u64>>>,
+    >(
+        __tokens: &mut __TOKENS,
+        __sym0: (i64, Tok, i64),
+        __sym1: (i64, Tree, i64),
+        __sym2: (i64, Tok, i64),
+        _: core::marker::PhantomData<()>,
+    ) -> Result<(Option<(i64, Tok, i64)>, __Nonterminal<>), __lalrpop_util::ParseError<i64, Tok, u64>>
+    {
+        let mut __result: (Option<(i64, Tok, i64)>, __Nonterminal<>);
+        let __lookahead = match __tokens.next() {
+            Some(Ok(v)) => Some(v),
+            Some(Err(e)) => return Err(e),
+            None => None,
+        };
+        match __lookahead {
+            Some((_, Tok('a', _, _, _), _)) |
+            Some((_, Tok('d', _, _, _), _)) |
+            Some((_, Tok('e', _, _, _), _)) |
+            Some((_, Tok('f', _, _, _), _)) |
+            Some((_, Tok('g', _, _, _), _)) |
+            None => {
+                let __start = __sym0.0.clone();
+                let __end = __sym2.2.clone();
+                let __nt = super::__action25::<>(__sym0, __sym1, __sym2);
+                let __nt = __Nonterminal::St((
+                    __start,
+                    __nt,
+                    __end,
+                ));
+                __result = (__lookahead, __nt);
+                return Ok(__result);
+            }
+            _ => {
+                #[allow(clippy::needless_raw_string_hashes)]
+                let __expected = alloc::vec![
+                    r###""id""###.to_string(),
+                    r###""{""###.to_string(),
+                    r###""}""###.to_string(),
+                    r###""if""###.to_string(),
+                    r###""else""###.to_string(),
+                ];
+                return Err(
+                    match __lookahead {
+                        Some(__token) => {
+                            __lalrpop_util::ParseError::UnrecognizedToken {
+                                token: __token,
+                                expected: __expected,
+                            }
+                        }
+                        None => {
+                            let __location = __sym2.2.clone();
+                            __lalrpop_util::ParseError::UnrecognizedEof {
+                                location: __location,
+                                expected: __expected,
+                            }
+                        }
+                    }
+                )
+            }
+        }
+    }
+
+    fn __state17<
+        __TOKENS: Iterator<Item=Result<(i64, Tok, i64),__lalrpop_util::ParseError<i64, Tok, u64>>>,
+    >(
+        __tokens: &mut __TOKENS,
+        __sym0: (i64, Tok, i64),
+        __sym1: (i64, Tok, i64),
+        __sym2: (i64, Tree, i64),
+        __sym3: (i64, Tok, i64),
+        _: core::marker::PhantomData<()>,
+    ) -> Result<(Option<(i64, Tok, i64)>, __Nonterminal<>), __lalrpop_util::ParseError<i64, Tok, u64>>
+    {
+        let mut __result: (Option<(i64, Tok, i64)>, __Nonterminal<>);
+        let __lookahead = match __tokens.next() {
+            Some(Ok(v)) => Some(v),
+            Some(Err(e)) => return Err(e),
+            None => None,
+        };
+        match __lookahead {
+            Some((_, Tok('a', _, _, _), _)) |
+            Some((_, Tok('d', _, _, _), _)) |
+            Some((_, Tok('e', _, _, _), _)) |
+            Some((_, Tok('f', _, _, _), _)) |
+            Some((_, Tok('g', _, _, _), _)) |
+            None => {
+                let __start = __sym0.0.clone();
+                let __end = __sym3.2.clone();
+                let __nt = super::__action24::<>(__sym0, __sym1, __sym2, __sym3);
+                let __nt = __Nonterminal::St((
+                    __start,
+                    __nt,
+                    __end,
+                ));
+                __result = (__lookahead, __nt);
+                return Ok(__result);
+            }
+            _ => {
+                #[allow(clippy::needless_raw_string_hashes)]
+                let __expected = alloc::vec![
+                    r###""id""###.to_string(),
+                    r###""{""###.to_string(),
+                    r###""}""###.to_string(),
+                    r###""if""###.to_string(),
+                    r###""else""###.to_string(),
+                ];
+                return Err(
+                    match __lookahead {
+                        Some(__token) => {
+                            __lalrpop_util::ParseError::UnrecognizedToken {
+                                token: __token,
+                                expected: __expected,
+                            }
+                        }
+                        None => {
+                            let __location = __sym3.2.clone();
+                            __lalrpop_util::ParseError::UnrecognizedEof {
+                                location: __location,
+                                expected: __expected,
+                            }
+                        }
+                    }
+                )
+            }
+        }
+    }
+
+    fn __state18<
+        __TOKENS: Iterator<Item=Result<(i64, Tok, i64),__lalrpop_util::ParseError<i64, Tok, u64>>>,
+    >(
+        __tokens: &mut __TOKENS,
+        __lookahead: Option<(i64, Tok, i64)>,
+        __sym0: (i64, Tok, i64),
+        __sym1: (i64, Tree, i64),
+        _: core::marker::PhantomData<()>,
+    ) -> Result<(Option<(i64, Tok, i64)>, __Nonterminal<>), __lalrpop_util::ParseError<i64, Tok, u64>>
+    {
+        let mut __result: (Option<(i64, Tok, i64)>, __Nonterminal<>);
+        match __lookahead {
+            Some((__loc1, __tok @ Tok('i', _, _, _), __loc2)) => {
+                let __sym2 = (__loc1, (__tok), __loc2);
+                __result = __state19(__tokens, __sym0, __sym1, __sym2, core::marker::PhantomData::<()>)?;
+                return Ok(__result);
+            }
+            _ => {
+                #[allow(clippy::needless_raw_string_hashes)]
+                let __expected = alloc::vec![
+                    r###"")""###.to_string(),
+                ];
+                return Err(
+                    match __lookahead {
+                        Some(__token) => {
+                            __lalrpop_util::ParseError::UnrecognizedToken {
+                                token: __token,
+                                expected: __expected,
+                            }
+                        }
+                        None => {
                             let __location = __sym1.2.clone();
+                            __lalrpop_util::ParseError::UnrecognizedEof {
+                                location: __location,
+                                expected: __expected,
+                            }
+                        }
+                    }
+                )
+            }
+        }
+    }
+
+    fn __state19<
+        __TOKENS: Iterator<Item=Result<(i64, Tok, i64),__lalrpop_util::ParseError<i64, Tok, u64>>>,
+    >(
+        __tokens: &mut __TOKENS,
+        __sym0: (i64, Tok, i64),
+        __sym1: (i64, Tree, i64),
+        __sym2: (i64, Tok, i64),
+        _: core::marker::PhantomData<()>,
+    ) -> Result<(Option<(i64, Tok, i64)>, __Nonterminal<>), __lalrpop_util::ParseError<i64, Tok, u64>>
+    {
+        let mut __result: (Option<(i64, Tok, i64)>, __Nonterminal<>);
+        let __lookahead = match __tokens.next() {
+            Some(Ok(v)) => Some(v),
+            Some(Err(e)) => return Err(e),
+            None => None,
+        };
+        match __lookahead {
+            Some((_, Tok('c', _, _, _), _)) |
+            Some((_, Tok('i', _, _, _), _)) => {
+                let __start = __sym0.0.clone();
+                let __end = __sym2.2.clone();
+                let __nt = super::__action20::<>(__sym0, __sym1, __sym2);
+                let __nt = __Nonterminal::Ex((
+                    __start,
+                    __nt,
+                    __end,
+                ));
+                __result = (__lookahead, __nt);
+                return Ok(__result);
+            }
+            _ => {
+                #[allow(clippy::needless_raw_string_hashes)]
+                let __expected = alloc::vec![
+                    r###"";""###.to_string(),
+                    r###"")""###.to_string(),
+                ];
+                return Err(
+                    match __lookahead {
+                        Some(__token) => {
+                            __lalrpop_util::ParseError::UnrecognizedToken {
+                                token: __token,
+                                expected: __expected,
+                            }
+                        }
+                        None => {
+                            let __location = __sym2.2.clone();
+                            __lalrpop_util::ParseError::UnrecognizedEof {
+                                location: __location,
+                                expected: __expected,
+                            }
+                        }
+                    }
+                )
+            }
+        }
+    }
+
+    fn __state20<
+        __TOKENS: Iterator<Item=Result<(i64, Tok, i64),__lalrpop_util::ParseError<i64, Tok, u64>>>,
+    >(
+        __tokens: &mut __TOKENS,
+        __lookahead: Option<(i64, Tok, i64)>,
+        __sym0: (i64, Tok, i64),
+        __sym1: (i64, Tok, i64),
+        __sym2: (i64, Tree, i64),
+        __sym3: (i64, Tok, i64),
+        __sym4: (i64, Tree, i64),
+        _: core::marker::PhantomData<()>,
+    ) -> Result<(Option<(i64, Tok, i64)>, __Nonterminal<>), __lalrpop_util::ParseError<i64, Tok, u64>>
+    {
+        let mut __result: (Option<(i64, Tok, i64)>, __Nonterminal<>);
+        match __lookahead {
+            Some((__loc1, __tok @ Tok('g', _, _, _), __loc2)) => {
+                let __sym5 = (__loc1, (__tok), __loc2);
+                __result = __state8(__tokens, __sym0, __sym1, __sym2, __sym3, __sym4, __sym5, core::marker::PhantomData::<()>)?;
+                return Ok(__result);
+            }
+            _ => {
+                #[allow(clippy::needless_raw_string_hashes)]
+                let __expected = alloc::vec![
+                    r###""else""###.to_string(),
+                ];
+                return Err(
+                    match __lookahead {
+                        Some(__token) => {
+                            __lalrpop_util::ParseError::UnrecognizedToken {
+                                token: __token,
+                                expected: __expected,
+                            }
+                        }
+                        None => {
+                            let __location = __sym4.2.clone();
+                            __lalrpop_util::ParseError::UnrecognizedEof {
+                                location: __location,
+                                expected: __expected,
+                            }
+                        }
+                    }
+                )
+            }
+        }
+    }
+
+    fn __state21<
+        __TOKENS: Iterator<Item=Result<(i64, Tok, i64),__lalrpop_util::ParseError<i64, Tok, u64>>>,
+    >(
+        __tokens: &mut __TOKENS,
+        __lookahead: Option<(i64, Tok, i64)>,
+        __sym0: (i64, Tok, i64),
+        __sym1: (i64, Tok, i64),
+        __sym2: (i64, Tree, i64),
+        __sym3: (i64, Tok, i64),
+        __sym4: (i64, Tree, i64),
+        __sym5: (i64, Tok, i64),
+        __sym6: (i64, Tree, i64),
+        _: core::marker::PhantomData<()>,
+    ) -> Result<(Option<(i64, Tok, i64)>, __Nonterminal<>), __lalrpop_util::ParseError<i64, Tok, u64>>
+    {
+        let mut __result: (Option<(i64, Tok, i64)>, __Nonterminal<>);
+        match __lookahead {
+            Some((_, Tok('a', _, _, _), _)) |
+            Some((_, Tok('d', _, _, _), _)) |
+            Some((_, Tok('e', _, _, _), _)) |
+            Some((_, Tok('f', _, _, _), _)) |
+            Some((_, Tok('g', _, _, _), _)) |
+            None => {
+                let __start = __sym0.0.clone();
+                let __end = __sym6.2.clone();
+                let __nt = super::__action26::<>(__sym0, __sym1, __sym2, __sym3, __sym4, __sym5, __sym6);
+                let __nt = __Nonterminal::St((
+                    __start,
+                    __nt,
+                    __end,
+                ));
+                __result = (__lookahead, __nt);
+                return Ok(__result);
+            }
+            _ => {
+                #[allow(clippy::needless_raw_string_hashes)]
+                let __expected = alloc::vec![
+                    r###""id""###.to_string(),
+                    r###""{""###.to_string(),
+                    r###""}""###.to_string(),
+                    r###""if""###.to_string(),
+                    r###""else""###.to_string(),
+                ];
+                return Err(
+                    match __lookahead {
+                        Some(__token) => {
+                            __lalrpop_util::ParseError::UnrecognizedToken {
+                                token: __token,
+                                expected: __expected,
+                            }
+                        }
+                        None => {
+                            let __location = __sym6.2.clone();
                             __lalrpop_util::ParseError::UnrecognizedEof {
                                 location: __location,
                                 expected: __expected,
@@ -408,7 +1380,7 @@ mod __parse__S {
     }
 }
 #[allow(unused_imports)]
-pub use self::__parse__S::SParser;
+pub use self::__parse__P::PParser;
 
 #[allow(clippy::too_many_arguments, clippy::needless_lifetimes, clippy::just_underscores_and_digits, clippy::extra_unused_type_parameters)]
 fn __action0<
@@ -424,21 +1396,21 @@ fn __action1<
 >(
     (_, l, _): (i64, i64, i64),
     (_, c0, _): (i64, Tree, i64),
-    (_, c1, _): (i64, Tok, i64),
     (_, r, _): (i64, i64, i64),
 ) -> Tree
 {
-    node("S#0", l, r, vec![Tree::from(c0), Tree::from(c1)])
+    node("P#0", l, r, vec![Tree::from(c0)])
 }
 
 #[allow(clippy::too_many_arguments, clippy::needless_lifetimes, clippy::just_underscores_and_digits, clippy::extra_unused_type_parameters)]
 fn __action2<
 >(
     (_, l, _): (i64, i64, i64),
+    (_, pL0, _): (i64, i64, i64),
     (_, r, _): (i64, i64, i64),
 ) -> Tree
 {
-    node("L#0", l, r, vec![])
+    { probe("Ss#0", 0, 'L', pL0); node("Ss#0", l, r, vec![]) }
 }
 
 #[allow(clippy::too_many_arguments, clippy::needless_lifetimes, clippy::just_underscores_and_digits, clippy::extra_unused_type_parameters)]
@@ -446,27 +1418,91 @@ fn __action3<
 >(
     (_, l, _): (i64, i64, i64),
     (_, c0, _): (i64, Tree, i64),
-    (_, c1, _): (i64, Tok, i64),
+    (_, c1, _): (i64, Tree, i64),
+    (_, pL2, _): (i64, i64, i64),
     (_, r, _): (i64, i64, i64),
 ) -> Tree
 {
-    node("L#1", l, r, vec![Tree::from(c0), Tree::from(c1)])
+    { probe("Ss#1", 2, 'L', pL2); node("Ss#1", l, r, vec![Tree::from(c0), Tree::from(c1)]) }
 }
 
 #[allow(clippy::too_many_arguments, clippy::needless_lifetimes, clippy::just_underscores_and_digits, clippy::extra_unused_type_parameters)]
 fn __action4<
 >(
     (_, l, _): (i64, i64, i64),
-    (_, c0, _): (i64, Tree, i64),
+    (_, pR0, _): (i64, i64, i64),
+    (_, c0, _): (i64, Tok, i64),
     (_, c1, _): (i64, Tok, i64),
+    (_, c2, _): (i64, Tree, i64),
+    (_, pR3, _): (i64, i64, i64),
+    (_, c3, _): (i64, Tok, i64),
     (_, r, _): (i64, i64, i64),
 ) -> Tree
 {
-    node("L#2", l, r, vec![Tree::from(c0), Tree::from(c1)])
+    { probe("St#0", 0, 'R', pR0); probe("St#0", 3, 'R', pR3); node("St#0", l, r, vec![Tree::from(c0), Tree::from(c1), Tree::from(c2), Tree::from(c3)]) }
+}
+
+#[allow(clippy::too_many_arguments, clippy::needless_lifetimes, clippy::just_underscores_and_digits, clippy::extra_unused_type_parameters)]
+fn __action5<
+>(
+    (_, l, _): (i64, i64, i64),
+    (_, c0, _): (i64, Tok, i64),
+    (_, c1, _): (i64, Tree, i64),
+    (_, pR2, _): (i64, i64, i64),
+    (_, c2, _): (i64, Tok, i64),
+    (_, r, _): (i64, i64, i64),
+) -> Tree
+{
+    { probe("St#1", 2, 'R', pR2); node("St#1", l, r, vec![Tree::from(c0), Tree::from(c1), Tree::from(c2)]) }
+}
+
+#[allow(clippy::too_many_arguments, clippy::needless_lifetimes, clippy::just_underscores_and_digits, clippy::extra_unused_type_parameters)]
+fn __action6<
+>(
+    (_, l, _): (i64, i64, i64),
+    (_, c0, _): (i64, Tok, i64),
+    (_, pL1, _): (i64, i64, i64),
+    (_, c1, _): (i64, Tok, i64),
+    (_, c2, _): (i64, Tree, i64),
+    (_, c3, _): (i64, Tok, i64),
+    (_, c4, _): (i64, Tree, i64),
+    (_, c5, _): (i64, Tok, i64),
+    (_, pR6, _): (i64, i64, i64),
+    (_, c6, _): (i64, Tree, i64),
+    (_, pL7, _): (i64, i64, i64),
+    (_, r, _): (i64, i64, i64),
+) -> Tree
+{
+    { probe("St#2", 1, 'L', pL1); probe("St#2", 6, 'R', pR6); probe("St#2", 7, 'L', pL7); node("St#2", l, r, vec![Tree::from(c0), Tree::from(c1), Tree::from(c2), Tree::from(c3), Tree::from(c4), Tree::from(c5), Tree::from(c6)]) }
+}
+
+#[allow(clippy::too_many_arguments, clippy::needless_lifetimes, clippy::just_underscores_and_digits, clippy::extra_unused_type_parameters)]
+fn __action7<
+>(
+    (_, l, _): (i64, i64, i64),
+    (_, c0, _): (i64, Tok, i64),
+    (_, r, _): (i64, i64, i64),
+) -> Tree
+{
+    node("Ex#0", l, r, vec![Tree::from(c0)])
+}
+
+#[allow(clippy::too_many_arguments, clippy::needless_lifetimes, clippy::just_underscores_and_digits, clippy::extra_unused_type_parameters)]
+fn __action8<
+>(
+    (_, l, _): (i64, i64, i64),
+    (_, c0, _): (i64, Tok, i64),
+    (_, pL1, _): (i64, i64, i64),
+    (_, c1, _): (i64, Tree, i64),
+    (_, c2, _): (i64, Tok, i64),
+    (_, r, _): (i64, i64, i64),
+) -> Tree
+{
+    { probe("Ex#1", 1, 'L', pL1); node("Ex#1", l, r, vec![Tree::from(c0), Tree::from(c1), Tree::from(c2)]) }
 }
 
 #[allow(clippy::needless_lifetimes, clippy::clone_on_copy)]
-fn __action5<
+fn __action9<
 >(
     __lookbehind: &i64,
     __lookahead: &i64,
@@ -476,7 +1512,7 @@ fn __action5<
 }
 
 #[allow(clippy::needless_lifetimes, clippy::clone_on_copy)]
-fn __action6<
+fn __action10<
 >(
     __lookbehind: &i64,
     __lookahead: &i64,
@@ -487,60 +1523,158 @@ fn __action6<
 
 #[allow(clippy::too_many_arguments, clippy::needless_lifetimes,
     clippy::just_underscores_and_digits, clippy::clone_on_copy, clippy::unit_arg)]
-fn __action7<
+fn __action11<
+>(
+    __0: (i64, Tok, i64),
+    __1: (i64, i64, i64),
+) -> Tree
+{
+    let __start0 = __0.0.clone();
+    let __end0 = __0.0.clone();
+    let __temp0 = __action10(
+        &__start0,
+        &__end0,
+    );
+    let __temp0 = (__start0, __temp0, __end0);
+    __action7(
+        __temp0,
+        __0,
+        __1,
+    )
+}
+
+#[allow(clippy::too_many_arguments, clippy::needless_lifetimes,
+    clippy::just_underscores_and_digits, clippy::clone_on_copy, clippy::unit_arg)]
+fn __action12<
+>(
+    __0: (i64, Tok, i64),
+    __1: (i64, Tree, i64),
+    __2: (i64, Tok, i64),
+    __3: (i64, i64, i64),
+) -> Tree
+{
+    let __start0 = __0.0.clone();
+    let __end0 = __0.0.clone();
+    let __start1 = __0.2.clone();
+    let __end1 = __1.0.clone();
+    let __temp0 = __action10(
+        &__start0,
+        &__end0,
+    );
+    let __temp0 = (__start0, __temp0, __end0);
+    let __temp1 = __action10(
+        &__start1,
+        &__end1,
+    );
+    let __temp1 = (__start1, __temp1, __end1);
+    __action8(
+        __temp0,
+        __0,
+        __temp1,
+        __1,
+        __2,
+        __3,
+    )
+}
+
+#[allow(clippy::too_many_arguments, clippy::needless_lifetimes,
+    clippy::just_underscores_and_digits, clippy::clone_on_copy, clippy::unit_arg)]
+fn __action13<
+>(
+    __0: (i64, Tree, i64),
+    __1: (i64, i64, i64),
+) -> Tree
+{
+    let __start0 = __0.0.clone();
+    let __end0 = __0.0.clone();
+    let __temp0 = __action10(
+        &__start0,
+        &__end0,
+    );
+    let __temp0 = (__start0, __temp0, __end0);
+    __action1(
+        __temp0,
+        __0,
+        __1,
+    )
+}
+
+#[allow(clippy::too_many_arguments, clippy::needless_lifetimes,
+    clippy::just_underscores_and_digits, clippy::clone_on_copy, clippy::unit_arg)]
+fn __action14<
 >(
     __0: (i64, i64, i64),
 ) -> Tree
 {
     let __start0 = __0.0.clone();
     let __end0 = __0.0.clone();
-    let __temp0 = __action6(
+    let __start1 = __0.0.clone();
+    let __end1 = __0.0.clone();
+    let __temp0 = __action10(
         &__start0,
         &__end0,
     );
     let __temp0 = (__start0, __temp0, __end0);
+    let __temp1 = __action10(
+        &__start1,
+        &__end1,
+    );
+    let __temp1 = (__start1, __temp1, __end1);
     __action2(
         __temp0,
+        __temp1,
         __0,
     )
 }
 
 #[allow(clippy::too_many_arguments, clippy::needless_lifetimes,
     clippy::just_underscores_and_digits, clippy::clone_on_copy, clippy::unit_arg)]
-fn __action8<
+fn __action15<
 >(
     __0: (i64, Tree, i64),
-    __1: (i64, Tok, i64),
+    __1: (i64, Tree, i64),
     __2: (i64, i64, i64),
 ) -> Tree
 {
     let __start0 = __0.0.clone();
     let __end0 = __0.0.clone();
-    let __temp0 = __action6(
+    let __start1 = __1.2.clone();
+    let __end1 = __2.0.clone();
+    let __temp0 = __action10(
         &__start0,
         &__end0,
     );
     let __temp0 = (__start0, __temp0, __end0);
+    let __temp1 = __action10(
+        &__start1,
+        &__end1,
+    );
+    let __temp1 = (__start1, __temp1, __end1);
     __action3(
         __temp0,
         __0,
         __1,
+        __temp1,
         __2,
     )
 }
 
 #[allow(clippy::too_many_arguments, clippy::needless_lifetimes,
     clippy::just_underscores_and_digits, clippy::clone_on_copy, clippy::unit_arg)]
-fn __action9<
+fn __action16<
 >(
-    __0: (i64, Tree, i64),
+    __0: (i64, i64, i64),
     __1: (i64, Tok, i64),
-    __2: (i64, i64, i64),
+    __2: (i64, Tok, i64),
+    __3: (i64, Tree, i64),
+    __4: (i64, i64, i64),
+    __5: (i64, Tok, i64),
+    __6: (i64, i64, i64),
 ) -> Tree
 {
     let __start0 = __0.0.clone();
     let __end0 = __0.0.clone();
-    let __temp0 = __action6(
+    let __temp0 = __action10(
         &__start0,
         &__end0,
     );
@@ -550,36 +1684,160 @@ fn __action9<
         __0,
         __1,
         __2,
+        __3,
+        __4,
+        __5,
+        __6,
     )
 }
 
 #[allow(clippy::too_many_arguments, clippy::needless_lifetimes,
     clippy::just_underscores_and_digits, clippy::clone_on_copy, clippy::unit_arg)]
-fn __action10<
+fn __action17<
 >(
-    __0: (i64, Tree, i64),
-    __1: (i64, Tok, i64),
+    __0: (i64, Tok, i64),
+    __1: (i64, Tree, i64),
     __2: (i64, i64, i64),
+    __3: (i64, Tok, i64),
+    __4: (i64, i64, i64),
 ) -> Tree
 {
     let __start0 = __0.0.clone();
     let __end0 = __0.0.clone();
-    let __temp0 = __action6(
+    let __temp0 = __action10(
         &__start0,
         &__end0,
     );
     let __temp0 = (__start0, __temp0, __end0);
-    __action1(
+    __action5(
         __temp0,
         __0,
         __1,
         __2,
+        __3,
+        __4,
     )
 }
 
 #[allow(clippy::too_many_arguments, clippy::needless_lifetimes,
     clippy::just_underscores_and_digits, clippy::clone_on_copy, clippy::unit_arg)]
-fn __action11<
+fn __action18<
+>(
+    __0: (i64, Tok, i64),
+    __1: (i64, Tok, i64),
+    __2: (i64, Tree, i64),
+    __3: (i64, Tok, i64),
+    __4: (i64, Tree, i64),
+    __5: (i64, Tok, i64),
+    __6: (i64, i64, i64),
+    __7: (i64, Tree, i64),
+    __8: (i64, i64, i64),
+) -> Tree
+{
+    let __start0 = __0.0.clone();
+    let __end0 = __0.0.clone();
+    let __start1 = __0.2.clone();
+    let __end1 = __1.0.clone();
+    let __start2 = __7.2.clone();
+    let __end2 = __8.0.clone();
+    let __temp0 = __action10(
+        &__start0,
+        &__end0,
+    );
+    let __temp0 = (__start0, __temp0, __end0);
+    let __temp1 = __action10(
+        &__start1,
+        &__end1,
+    );
+    let __temp1 = (__start1, __temp1, __end1);
+    let __temp2 = __action10(
+        &__start2,
+        &__end2,
+    );
+    let __temp2 = (__start2, __temp2, __end2);
+    __action6(
+        __temp0,
+        __0,
+        __temp1,
+        __1,
+        __2,
+        __3,
+        __4,
+        __5,
+        __6,
+        __7,
+        __temp2,
+        __8,
+    )
+}
+
+#[allow(clippy::too_many_arguments, clippy::needless_lifetimes,
+    clippy::just_underscores_and_digits, clippy::clone_on_copy, clippy::unit_arg)]
+fn __action19<
+>(
+    __0: (i64, Tok, i64),
+) -> Tree
+{
+    let __start0 = __0.2.clone();
+    let __end0 = __0.2.clone();
+    let __temp0 = __action9(
+        &__start0,
+        &__end0,
+    );
+    let __temp0 = (__start0, __temp0, __end0);
+    __action11(
+        __0,
+        __temp0,
+    )
+}
+
+#[allow(clippy::too_many_arguments, clippy::needless_lifetimes,
+    clippy::just_underscores_and_digits, clippy::clone_on_copy, clippy::unit_arg)]
+fn __action20<
+>(
+    __0: (i64, Tok, i64),
+    __1: (i64, Tree, i64),
+    __2: (i64, Tok, i64),
+) -> Tree
+{
+    let __start0 = __2.2.clone();
+    let __end0 = __2.2.clone();
+    let __temp0 = __action9(
+        &__start0,
+        &__end0,
+    );
+    let __temp0 = (__start0, __temp0, __end0);
+    __action12(
+        __0,
+        __1,
+        __2,
+        __temp0,
+    )
+}
+
+#[allow(clippy::too_many_arguments, clippy::needless_lifetimes,
+    clippy::just_underscores_and_digits, clippy::clone_on_copy, clippy::unit_arg)]
+fn __action21<
+>(
+    __0: (i64, Tree, i64),
+) -> Tree
+{
+    let __start0 = __0.2.clone();
+    let __end0 = __0.2.clone();
+    let __temp0 = __action9(
+        &__start0,
+        &__end0,
+    );
+    let __temp0 = (__start0, __temp0, __end0);
+    __action13(
+        __0,
+        __temp0,
+    )
+}
+
+#[allow(clippy::too_many_arguments, clippy::needless_lifetimes,
+    clippy::just_underscores_and_digits, clippy::clone_on_copy, clippy::unit_arg)]
+fn __action22<
 >(
     __lookbehind: &i64,
     __lookahead: &i64,
@@ -587,32 +1845,32 @@ fn __action11<
 {
     let __start0 = __lookbehind.clone();
     let __end0 = __lookahead.clone();
-    let __temp0 = __action5(
+    let __temp0 = __action9(
         &__start0,
         &__end0,
     );
     let __temp0 = (__start0, __temp0, __end0);
-    __action7(
+    __action14(
         __temp0,
     )
 }
 
 #[allow(clippy::too_many_arguments, clippy::needless_lifetimes,
     clippy::just_underscores_and_digits, clippy::clone_on_copy, clippy::unit_arg)]
-fn __action12<
+fn __action23<
 >(
     __0: (i64, Tree, i64),
-    __1: (i64, Tok, i64),
+    __1: (i64, Tree, i64),
 ) -> Tree
 {
     let __start0 = __1.2.clone();
     let __end0 = __1.2.clone();
-    let __temp0 = __action5(
+    let __temp0 = __action9(
         &__start0,
         &__end0,
     );
     let __temp0 = (__start0, __temp0, __end0);
-    __action8(
+    __action15(
         __0,
         __1,
         __temp0,
@@ -621,45 +1879,115 @@ fn __action12<
 
 #[allow(clippy::too_many_arguments, clippy::needless_lifetimes,
     clippy::just_underscores_and_digits, clippy::clone_on_copy, clippy::unit_arg)]
-fn __action13<
+fn __action24<
 >(
-    __0: (i64, Tree, i64),
+    __0: (i64, Tok, i64),
     __1: (i64, Tok, i64),
+    __2: (i64, Tree, i64),
+    __3: (i64, Tok, i64),
 ) -> Tree
 {
-    let __start0 = __1.2.clone();
-    let __end0 = __1.2.clone();
-    let __temp0 = __action5(
+    let __start0 = __0.0.clone();
+    let __end0 = __0.0.clone();
+    let __start1 = __2.2.clone();
+    let __end1 = __3.0.clone();
+    let __start2 = __3.2.clone();
+    let __end2 = __3.2.clone();
+    let __temp0 = __action9(
         &__start0,
         &__end0,
     );
     let __temp0 = (__start0, __temp0, __end0);
-    __action9(
+    let __temp1 = __action9(
+        &__start1,
+        &__end1,
+    );
+    let __temp1 = (__start1, __temp1, __end1);
+    let __temp2 = __action9(
+        &__start2,
+        &__end2,
+    );
+    let __temp2 = (__start2, __temp2, __end2);
+    __action16(
+        __temp0,
         __0,
         __1,
-        __temp0,
+        __2,
+        __temp1,
+        __3,
+        __temp2,
     )
 }
 
 #[allow(clippy::too_many_arguments, clippy::needless_lifetimes,
     clippy::just_underscores_and_digits, clippy::clone_on_copy, clippy::unit_arg)]
-fn __action14<
+fn __action25<
 >(
-    __0: (i64, Tree, i64),
-    __1: (i64, Tok, i64),
+    __0: (i64, Tok, i64),
+    __1: (i64, Tree, i64),
+    __2: (i64, Tok, i64),
 ) -> Tree
 {
     let __start0 = __1.2.clone();
-    let __end0 = __1.2.clone();
-    let __temp0 = __action5(
+    let __end0 = __2.0.clone();
+    let __start1 = __2.2.clone();
+    let __end1 = __2.2.clone();
+    let __temp0 = __action9(
         &__start0,
         &__end0,
     );
     let __temp0 = (__start0, __temp0, __end0);
-    __action10(
+    let __temp1 = __action9(
+        &__start1,
+        &__end1,
+    );
+    let __temp1 = (__start1, __temp1, __end1);
+    __action17(
         __0,
         __1,
         __temp0,
+        __2,
+        __temp1,
+    )
+}
+
+#[allow(clippy::too_many_arguments, clippy::needless_lifetimes,
+    clippy::just_underscores_and_digits, clippy::clone_on_copy, clippy::unit_arg)]
+fn __action26<
+>(
+    __0: (i64, Tok, i64),
+    __1: (i64, Tok, i64),
+    __2: (i64, Tree, i64),
+    __3: (i64, Tok, i64),
+    __4: (i64, Tree, i64),
+    __5: (i64, Tok, i64),
+    __6: (i64, Tree, i64),
+) -> Tree
+{
+    let __start0 = __5.2.clone();
+    let __end0 = __6.0.clone();
+    let __start1 = __6.2.clone();
+    let __end1 = __6.2.clone();
+    let __temp0 = __action9(
+        &__start0,
+        &__end0,
+    );
+    let __temp0 = (__start0, __temp0, __end0);
+    let __temp1 = __action9(
+        &__start1,
+        &__end1,
+    );
+    let __temp1 = (__start1, __temp1, __end1);
+    __action18(
+        __0,
+        __1,
+        __2,
+        __3,
+        __4,
+        __5,
+        __temp0,
+        __6,
+        __temp1,
     )
 }
 
